@@ -102,3 +102,111 @@ def wellformed(ranking_obj, back, universe):
 
 def scheme_pairs(names):
     return [(n, spaces.SCHQ_BY_NAME[n]) for n in names]
+
+
+# ----------------------------------------------------------------------------- view oracles (C16)
+
+def ranking_views(r):
+    """None if positions / domain / nb_elements / len of a library Ranking agree with its buckets,
+    else a reason."""
+    from corankco.element import Element
+    buckets = r.buckets
+    seen = {}
+    before = 0
+    for b in buckets:
+        if not isinstance(b, (set, frozenset)):
+            return 'bucket not a set'
+        for e in b:
+            if not isinstance(e, Element):
+                return 'bucket member %r is not an Element' % (e,)
+            key = (e.type, e.value)
+            if key in seen:
+                return 'element %r in two buckets' % (e,)
+            seen[key] = before + 1
+        before += len(b)
+    pos = r.positions
+    got = {(e.type, e.value): p for e, p in pos.items()}
+    if len(got) != len(pos):
+        return 'positions has duplicate keys'
+    if got != seen:
+        return 'positions %r != expected %r' % (sorted(got.items(), key=repr), sorted(seen.items(), key=repr))
+    dom = set((e.type, e.value) for e in r.domain)
+    if dom != set(seen):
+        return 'domain %r != union of buckets %r' % (sorted(dom, key=repr), sorted(seen, key=repr))
+    if r.nb_elements != len(seen):
+        return 'nb_elements %r != %d' % (r.nb_elements, len(seen))
+    if len(r) != len(buckets) or len(list(iter(r))) != len(buckets):
+        return 'len %r != %d' % (len(r), len(buckets))
+    return None
+
+
+def structural_rankings(d):
+    return [tuple(frozenset((e.type, e.value) for e in b) for b in r) for r in d.rankings]
+
+
+def dataset_views(d):
+    """None if every dataset-level view agrees with the rankings, else a reason."""
+    import numpy as np
+    from corankco.element import Element
+    rankings = d.rankings
+    for i, r in enumerate(rankings):
+        bad = ranking_views(r)
+        if bad:
+            return 'ranking %d: %s' % (i, bad)
+    union = set()
+    for r in rankings:
+        for b in r.buckets:
+            for e in b:
+                union.add((e.type, e.value))
+    uni = d.universe
+    if set((e.type, e.value) for e in uni) != union or len(uni) != len(union):
+        return 'universe %r != union of domains %r' % (sorted(((e.type, e.value) for e in uni), key=repr), sorted(union, key=repr))
+    n = len(union)
+    if d.nb_elements != n:
+        return 'nb_elements %r != %d' % (d.nb_elements, n)
+    if d.nb_rankings != len(rankings):
+        return 'nb_rankings %r != %d' % (d.nb_rankings, len(rankings))
+    m1 = d.mapping_elem_id
+    m2 = d.mapping_id_elem
+    if set((e.type, e.value) for e in m1) != union or len(m1) != n:
+        return 'mapping_elem_id keys %r != universe %r' % (sorted(((e.type, e.value) for e in m1), key=repr), sorted(union, key=repr))
+    if sorted(m1.values()) != list(range(n)):
+        return 'mapping_elem_id values %r not 0..%d' % (sorted(m1.values()), n - 1)
+    if sorted(m2.keys()) != list(range(n)):
+        return 'mapping_id_elem keys %r not exactly 0..%d' % (sorted(m2.keys()), n - 1)
+    for e, i in m1.items():
+        back = m2[i]
+        if not isinstance(back, Element) or (back.type, back.value) != (e.type, e.value):
+            return 'mapping_id_elem[%d] = %r is not the inverse of %r' % (i, back, e)
+    types = set(t for t, _ in union)
+    if len(types) > 1:
+        return 'mixed element types %r' % (types,)
+    intlike = all(t is int or (isinstance(v, str) and v.isdigit()) for t, v in union)
+    if union and ((types == {int}) != intlike):
+        return 'element type %r but names integer-like = %r' % (types, intlike)
+    for t, v in union:
+        if type(v) is not t:
+            return 'element value %r not of its declared type %r' % (v, t)
+    comp = all(set((e.type, e.value) for e in r.domain) == union for r in rankings)
+    if d.is_complete is not comp:
+        return 'is_complete %r != %r' % (d.is_complete, comp)
+    noties = all(len(b) == 1 for r in rankings for b in r.buckets)
+    if d.without_ties is not noties:
+        return 'without_ties %r != %r' % (d.without_ties, noties)
+    pos = d.get_positions()
+    bid = d.get_bucket_ids()
+    ep = np.full((n, len(rankings)), -1)
+    eb = np.full((n, len(rankings)), -1)
+    ids = {(e.type, e.value): i for e, i in m1.items()}
+    for j, r in enumerate(rankings):
+        before = 0
+        for bi, b in enumerate(r.buckets):
+            for e in b:
+                ep[ids[(e.type, e.value)], j] = before
+                eb[ids[(e.type, e.value)], j] = bi
+            before += len(b)
+    if pos.shape != ep.shape or not np.array_equal(pos, ep):
+        return 'get_positions %r != %r' % (pos.tolist(), ep.tolist())
+    if bid.shape != eb.shape or not np.array_equal(bid, eb):
+        return 'get_bucket_ids %r != %r' % (bid.tolist(), eb.tolist())
+    return None
